@@ -9,6 +9,9 @@ import (
 )
 
 func evSpToExt(t *Tracer, w Win, ids []ID) {
+	if !(w.validIDs(ids...)) {
+		return // outside the documented domain: not a case
+	}
 	real := w.embedSpList(ids)
 	snap := append([]string(nil), real...)
 	o, res := guard(func() (any, error) { return shape.ConvertSpatialIdsToExtendedSpatialIds(real) })
@@ -24,6 +27,9 @@ func evSpToExt(t *Tracer, w Win, ids []ID) {
 }
 
 func evExtToSp(t *Tracer, w Win, ids []ID) {
+	if !(w.validIDs(ids...)) {
+		return // outside the documented domain: not a case
+	}
 	real := w.embedExtList(ids)
 	snap := append([]string(nil), real...)
 	o, res := guard(func() (any, error) { return shape.ConvertExtendedSpatialIdsToSpatialIds(real) })
@@ -40,6 +46,9 @@ func evExtToSp(t *Tracer, w Win, ids []ID) {
 
 // evNewExtID: parse into an object and print / read back through every accessor.
 func evNewExtID(t *Tracer, w Win, id ID) {
+	if !(w.validIDs(id)) {
+		return // outside the documented domain: not a case
+	}
 	rid := w.E(id)
 	e := w.ev("NewExtID", map[string]any{"id": id.Arr()})
 	e.Real = map[string]any{"id": rid.String()}
@@ -77,6 +86,9 @@ func evNewExtID(t *Tracer, w Win, id ID) {
 }
 
 func evExpand(t *Tracer, w Win, id ID) {
+	if !(w.validIDs(id)) {
+		return // outside the documented domain: not a case
+	}
 	rid := w.E(id)
 	o, res := guard(func() (any, error) {
 		obj, err := object.NewExtendedSpatialID(rid.String())
@@ -97,6 +109,9 @@ func evExpand(t *Tracer, w Win, id ID) {
 }
 
 func evVoxelID(t *Tracer, w Win, id ID) {
+	if !(w.validIDs(id)) {
+		return // outside the documented domain: not a case
+	}
 	rid := w.E(id)
 	o, res := guard(func() (any, error) { return transform.GetVoxelIDfromSpatialID(rid.String()), nil })
 	e := w.ev("VoxelID", map[string]any{"id": id.Arr()})
